@@ -40,6 +40,15 @@ def run(ctx):
             else:
                 full.append(P.two_runs(fam, p, p, items, s, "Equal", feed_b=fb, pre_b=pre,
                                        restrict=(lambda nums: nums) if fam != "NNDVI" else None))
+    # large batches (thousands of rows) for the kdq-tree detector: row order must still not matter
+    for i in range(1 if q else 4):
+        p = P.default_params("KdqTreeBatch", rng)
+        p.update(count_ubound=50)
+        c = [rng.randint(-20, 20), rng.randint(-20, 20)]
+        items = [[[c[0] + rng.randint(0, 40), c[1] + rng.randint(0, 40)] for _ in range(rng.randint(4200, 6000))] for _ in range(3)]
+        s = rng.randrange(10 ** 6)
+        srt = lambda x, t: np.array(sorted(x), dtype=float)         # B sees every batch sorted by its first feature
+        full.append(P.two_runs("KdqTreeBatch", p, p, items, s, "Equal", feed_b=lambda d, x, t, srt=srt: d.update(srt(x, t)), pre_b=srt))
     rep = lambda ts: (lambda i: {"fam": ts[i]["fam"], "pa": ts[i]["pa"], "items": ts[i]["items"], "seed": ts[i]["seed"], "rel": ts[i]["cfg"]["rel"]})
     # NNDVI's tag is a digest of the retained reference IN ROW ORDER: blank it (the permuted run retains permuted rows)
     for t in full:
